@@ -180,6 +180,10 @@ def main(argv=None):
     budget = a.budget
     if budget is None:
         budget = getattr(mod, "BUDGET", {}).get(a.tier, DEFAULT_BUDGET[a.tier])
+        if a.tier == "quick":
+            # the guard only bites on an overloaded machine (an idle quick run takes 5-40 s); keep it
+            # generous so that coverage does not depend on the load of the host
+            budget = max(budget, float(os.environ.get("VERIF_QUICK_GUARD", "120")))
     deadline = time.time() + budget
     try:
         tasks = list(mod.plan(a.tier, seed))
